@@ -18,6 +18,24 @@ Proof. repeat split; reflexivity. Qed.
 
 (* smtp.go: STARTTLS expects 220 (part of gen_expects_std) and StartTLS ends with c.ehlo(); smtp_ehlo.go: the
    extension map is assigned unconditionally after an accepted EHLO (part of gen_dialogue_repaired) *)
+(* client.go Client.Send: on every path the call of SendWithSMTPClient lies between Lock and Unlock of sendMutex
+   (the lock program is the one the locks engine extracts for C13: Gen.send_paths).  The model of concurrent Send
+   calls on one connection is their sequential composition (run_serialised) because of this. *)
+Fixpoint call_under_lock (held seen : bool) (p : list Gen.lock_ev) : bool :=
+  match p with
+  | [] => seen
+  | Gen.LLock m :: t => call_under_lock (held || bytes_eqb m Gen.lkn_c_sendMutex) seen t
+  | Gen.LUnlock m :: t => call_under_lock (held && negb (bytes_eqb m Gen.lkn_c_sendMutex)) seen t
+  | Gen.LCall f :: t =>
+      if bytes_eqb f Gen.lkn_c_SendWithSMTPClient then held && call_under_lock held true t
+      else call_under_lock held seen t
+  | _ :: t => call_under_lock held seen t
+  end.
+
+Lemma gen_send_holds_send_mutex :
+  forallb (call_under_lock false false) Gen.send_paths = true /\ Gen.send_paths <> [].
+Proof. split; [vm_compute; reflexivity|discriminate]. Qed.
+
 (* smtp.go dataCloser.Close reads the whole (possibly multi-line) reply: one reply per command in the model's queue *)
 Lemma gen_eod_reads_full_response : Gen.eod_reads_full_response = true.
 Proof. reflexivity. Qed.
